@@ -212,7 +212,7 @@ PROPS = {
         "trusted": ["testing/synctest virtual clock and quiescence detection (go1.26.8)",
                     "simulated cloud (harness/pool/world.go): blocks every factory call until the script releases it with a chosen outcome",
                     "the replay's expansion of observations into labels (coq/PoolRun.v) is search code: a wrong guess shows as a mismatch, never hides one"],
-        "modelled": ["c07_band (return to the min/max band) is checked by the balancer arithmetic replay only (partial)"],
+        "modelled": ["the band (second sentence) is proved for the balancer's arithmetic (c07_band_reached_partial, c07_band_is_fixed, c07_never_trims_and_refills: the functions the replay compares with Manager.syncPool on every pass); that each disposal / pre-heat request of a pass is carried out under a healthy cloud is not proved (partial)"],
         "assumptions": ["factory contract: a failed create returns the interface if it exists; a failed assign returns the addresses that were assigned", "E1; H_seq"],
         "level_text": "Theorems over all label sequences incl. faults: cloud-assigned addresses are always tracked (no orphan); a Deleting entry stays until an unassign/delete is confirmed; after a truthful sync valid entries = cloud's; "
                       "create/assign begin only with the back-off deadline in the past and a needy request is refused meanwhile; owner => holder or in-flight request (per interface). Tied as C01.",
